@@ -1,6 +1,12 @@
 package keeper
 
 import (
+	"context"
+	"cosmossdk.io/collections"
+	storetypes "cosmossdk.io/store/types"
+	"github.com/cosmos/cosmos-sdk/codec"
+	"github.com/cosmos/cosmos-sdk/runtime"
+	distrtypes "github.com/cosmos/cosmos-sdk/x/distribution/types"
 	"math/big"
 
 	sdkmath "cosmossdk.io/math"
@@ -250,34 +256,89 @@ func VerifC01_BatchLife() {
 // run as the tally runs it: on a cached context committed only on success)
 // raises the token's supply by exactly the deposited amount, credits the
 // receiver with it, and leaves the escrow of pending outbound transfers alone.
+// c01Recorder wraps the keeper's own attestation handler and remembers whether it
+// reported failure (processAttestation only logs it).
+type c01Recorder struct {
+	inner  AttestationHandler
+	failed *bool
+}
+
+func (r c01Recorder) Handle(ctx context.Context, att types.Attestation, claim types.EthereumClaim) error {
+	err := r.inner.Handle(ctx, att, claim)
+	if err != nil {
+		*r.failed = true
+	}
+	return err
+}
+
+func (r c01Recorder) ValidateMembers() {}
+
+// VerifC01_Deposit: an attested inbound deposit, applied the way the oracle applies
+// it (Keeper.processAttestation), to a valid receiver or to free text that is no
+// address (then the community pool gets it), with a failure injected at any bank
+// call on the way. All or nothing: either the supply rises by exactly the amount
+// and exactly one of {receiver, community pool} is credited with it, or nothing
+// changed at all; the escrow of pending outbound transfers is never touched.
 func VerifC01_Deposit() {
 	p := sym.Choice("p", c01MaxSends()+1)
 	env, _ := c01Setup(p)
 	env.UseRealHandler()
+	failed := false
+	env.K.AttestationHandler = c01Recorder{inner: AttestationHandler{keeper: &env.K}, failed: &failed}
+	// the community pool record of x/distribution (the real collections item)
+	sb := collections.NewSchemaBuilder(runtime.NewKVStoreService(storetypes.NewKVStoreKey(distrtypes.StoreKey)))
+	env.K.DistKeeper.FeePool = collections.NewItem(sb, distrtypes.FeePoolKey, "fee_pool", codec.CollValue[distrtypes.FeePool](env.K.cdc))
+	if err := env.K.DistKeeper.FeePool.Set(env.Ctx, distrtypes.InitialFeePool()); err != nil {
+		panic(err)
+	}
+	env.Bank.Faults = true
 	supply0 := env.Bank.Supply(vDenom)
 	rcv0 := env.Bank.Balance(vUserC, vDenom)
+	pool0 := env.Bank.ModuleBalance(distrtypes.ModuleName, vDenom)
 	escrow0 := env.Bank.ModuleBalance(types.ModuleName, vDenom)
 	amt := sdkmath.NewIntFromBigInt(sym.BigInt("deposit", 200))
 	token := vErc20
 	if sym.Bool("unknown-token") {
 		token = vErc20B
 	}
+	receiver := vUserC.String()
+	validReceiver := !sym.Bool("receiver-is-no-address")
+	if !validReceiver {
+		receiver = "not an address"
+	}
 	claim := &types.MsgSendToPalomaClaim{EventNonce: 1, SkywayNonce: 1, EthBlockHeight: 10, TokenContract: token, Amount: amt,
-		EthereumSender: "0x4444444444444444444444444444444444444444", PalomaReceiver: vUserC.String(), Orchestrator: vUserA.String(), ChainReferenceId: vChain, CompassId: "compass-1"}
-	cctx, commit := env.Ctx.CacheContext()
-	err := env.K.AttestationHandler.Handle(cctx, types.Attestation{}, claim)
-	if err == nil {
-		commit()
+		EthereumSender: "0x4444444444444444444444444444444444444444", PalomaReceiver: receiver, Orchestrator: vUserA.String(), ChainReferenceId: vChain, CompassId: "compass-1"}
+	if err := env.K.processAttestation(env.Ctx, &types.Attestation{}, claim); err != nil {
+		panic(err)
+	}
+	supply1 := env.Bank.Supply(vDenom)
+	rcv1 := env.Bank.Balance(vUserC, vDenom)
+	pool1 := env.Bank.ModuleBalance(distrtypes.ModuleName, vDenom)
+	fp, err := env.K.DistKeeper.FeePool.Get(env.Ctx)
+	if err != nil {
+		panic(err)
+	}
+	recorded := fp.CommunityPool.AmountOf(vDenom).TruncateInt()
+	toReceiver := sym.And(rcv1.Equal(rcv0.Add(amt)), sym.And(pool1.Equal(pool0), recorded.IsZero()))
+	toPool := sym.And(rcv1.Equal(rcv0), sym.And(pool1.Equal(pool0.Add(amt)), recorded.Equal(amt)))
+	untouched := sym.And(supply1.Equal(supply0), sym.And(rcv1.Equal(rcv0), sym.And(pool1.Equal(pool0), recorded.IsZero())))
+	sym.Assert(env.Bank.ModuleBalance(types.ModuleName, vDenom).Equal(escrow0), "deposit-leaves-the-escrow-of-pending-transfers-alone")
+	if failed {
+		sym.Reach("deposit-refused")
+		sym.Assert(untouched, "failed-deposit-changes-nothing")
+	} else {
 		sym.Reach("deposit-applied")
 		sym.Assert(token == vErc20, "deposit-only-for-registered-tokens")
-		sym.Assert(env.Bank.Supply(vDenom).Equal(supply0.Add(amt)), "deposit-raises-supply-by-exactly-the-amount")
-		sym.Assert(env.Bank.Balance(vUserC, vDenom).Equal(rcv0.Add(amt)), "deposit-credits-the-receiver-with-exactly-the-amount")
-	} else {
-		sym.Reach("deposit-refused")
-		sym.Assert(env.Bank.Supply(vDenom).Equal(supply0), "refused-deposit-leaves-supply-unchanged")
-		sym.Assert(env.Bank.Balance(vUserC, vDenom).Equal(rcv0), "refused-deposit-credits-nobody")
+		sym.Assert(supply1.Equal(supply0.Add(amt)), "deposit-raises-supply-by-exactly-the-amount")
+		if amt.IsPositive() {
+			sym.Assert(sym.Or(toReceiver, toPool), "deposit-credits-receiver-or-community-pool-with-exactly-the-amount")
+			if toPool {
+				sym.Reach("deposit-to-community-pool")
+			} else {
+				sym.Assert(validReceiver, "only-a-valid-receiver-is-credited")
+			}
+		}
 	}
-	sym.Assert(env.Bank.ModuleBalance(types.ModuleName, vDenom).Equal(escrow0), "deposit-leaves-the-escrow-of-pending-transfers-alone")
 	c01CheckInvariant(env, "escrow-equals-pending-after-deposit")
 }
 
